@@ -48,6 +48,9 @@ def run(ctx):
     paths = ctx.gen_paths(FAM, "Gen_KeepAlive", "Gen_KeepAlive.cfg")
     rows = [extra["cfg"] for extra, path in paths if len(path) == 2]
     jobs = [(i + 1, row, {}) for i, row in enumerate(rows)]
+    # every row again with the client's receive window closed while request 1 is handled: the response is
+    # still being written when the handler (prepare() of an early-finishing handler) returns
+    jobs += [(len(rows) + i + 1, row, {"stall": True}) for i, row in enumerate(rows)]
     traces = framework.pool_map(_job, jobs)
     ctx.validate(FAM, "Trace_KeepAlive", "Trace_KeepAlive.cfg", traces, label="s2c", sig_fn=sig_of)
     ctx.cov["exhaustive"] = True
@@ -65,6 +68,8 @@ def run(ctx):
                 kw["cuts"] = sorted(rng.randrange(1, 160) for _ in range(rng.randint(1, 4)))
         if not row["early"] and rng.random() < 0.4:
             kw["streaming"] = True
+        if rng.random() < 0.3:
+            kw["stall"] = True
         vjobs.append((base + i + 1, row, kw))
     vtraces = framework.pool_map(_job, vjobs)
     ctx.validate(FAM, "Trace_KeepAlive", "Trace_KeepAlive.cfg", vtraces, label="c2s", sig_fn=sig_of)
@@ -81,7 +86,7 @@ def replay(ctx, rec):
         print("specification-level violation; rerun ./check C03")
         return 1
     has1 = any(e["a"] == "observe1" for e in t["ev"])
-    t2 = drv.ka_trace(t["id"], t["cfg"], schedule="stepwise" if has1 else "pipelined")
+    t2 = drv.ka_trace(t["id"], t["cfg"], schedule="stepwise" if has1 else "pipelined", **t.get("kw", {}))
     v = ctx.validate(FAM, "Trace_KeepAlive", "Trace_KeepAlive.cfg", [t2], label="replay", sig_fn=sig_of, shards=1)
     bad = v[t2["id"]]
     for e in t2["ev"]:
